@@ -5,7 +5,7 @@ ids=${@:-$(/venv/bin/python -c "import json; print(' '.join(c['property_id'] for
 mkdir -p .work
 for p in $ids; do
   s=$(date +%s)
-  ./check $p --tier $tier > .work/run_${tier}_$p.log 2>&1
+  ./check $p --tier $tier ${JOBS:+--jobs $JOBS} > .work/run_${tier}_$p.log 2>&1
   rc=$?
   e=$(date +%s)
   echo "$p rc=$rc $((e-s))s known=$(grep -c '^KNOWN-FINDING' .work/run_${tier}_$p.log) viol=$(grep -c '^VIOLATION' .work/run_${tier}_$p.log)"
